@@ -316,5 +316,63 @@ theorem iter_order_sorted (bins : List (List UInt8 × List (List UInt8))) (prioO
     obtain ⟨n2, _, rfl⟩ := hy
     exact ⟨by simpa [binLe] using h.1, fun e => absurd e h.2⟩
 
-end NextestModel.C08
+/-! ## threads-required against the width of the run -/
 
+open NextestModel.Priority in
+/-- **how wide the run is** (`TestRunnerBuilder::build`): without capture exactly one test at a time whatever is configured;
+    otherwise the command line's thread count wins over the profile's -/
+theorem run_width (cli : Option Nat) (profile n : Nat) :
+    runTestThreads true cli profile = 1 ∧ runTestThreads false (some n) profile = n ∧ runTestThreads false none profile = profile :=
+  ⟨rfl, rfl, rfl⟩
+
+open NextestModel.Priority in
+/-- **threads-required is resolved against the run as it is actually started**: `num-test-threads` is the run's width — the
+    command line's when one is given, not the profile's —, `num-cpus` the CPU count, a number itself -/
+theorem threads_required_resolution (ncpu : Nat) (noCapture : Bool) (cli : Option Nat) (profile k : Nat) :
+    testWeight .numTestThreads ncpu noCapture cli profile = runTestThreads noCapture cli profile ∧
+    testWeight .numCpus ncpu noCapture cli profile = ncpu ∧ testWeight (.count k) ncpu noCapture cli profile = k :=
+  ⟨rfl, rfl, rfl⟩
+
+private theorem sum_zero_each (l : List Nat) (h : l.sum = 0) : ∀ x ∈ l, x = 0 := by
+  induction l with
+  | nil => intro x hx; cases hx
+  | cons a as ih =>
+    intro x hx
+    simp only [List.sum_cons] at h
+    rcases List.mem_cons.mp hx with rfl | hx'
+    · omega
+    · exact ih (by omega) x hx'
+
+/-- **a test that needs the whole run has it to itself**: in every reachable state of the scheduler — every test list, weight
+    and group assignment, completion order — while a test whose threads-required is at least the run's width (e.g.
+    `num-test-threads`) is alive, every other alive test holds no thread at all (its threads-required is 0) -/
+theorem full_width_test_runs_alone (maxW : Nat) (gm : List Nat) (items : List Item) (ops : List Op) (s' : SState)
+    (h : runOps (SState.init maxW gm items) ops = some s') (pre post : List Running) (r : Running)
+    (hr : s'.running = pre ++ r :: post) (hw : maxW ≤ r.item.weight) :
+    ∀ x ∈ pre ++ post, min x.item.weight maxW = 0 := by
+  have hle := global_weight_inv maxW gm items ops s' h
+  have hm : s'.maxW = maxW := by
+    suffices hgen : ∀ (ops : List Op) (s : SState), GlobalOk s → s.maxW = maxW → runOps s ops = some s' → s'.maxW = maxW from
+      hgen ops _ (init_ok maxW gm items) rfl h
+    intro ops
+    induction ops with
+    | nil => intro s _ hm h; simp [runOps] at h; subst h; exact hm
+    | cons o os ih =>
+      intro s hs hm h
+      simp only [runOps] at h
+      split at h
+      · cases h
+      · rename_i s1 st hstep
+        have := global_weight_step s o s1 st hs hstep
+        exact ih s1 this.1 (by rw [this.2, hm]) h
+  unfold wsum at hle
+  rw [hr, hm] at hle
+  simp only [List.map_append, List.map_cons, List.sum_append, List.sum_cons, gw] at hle
+  have hmin : min r.item.weight maxW = maxW := Nat.min_eq_right hw
+  rw [hmin] at hle
+  intro x hx
+  have hz : ((pre ++ post).map (gw maxW)).sum = 0 := by
+    simp only [List.map_append, List.sum_append]; omega
+  exact sum_zero_each _ hz _ (List.mem_map.mpr ⟨x, hx, rfl⟩)
+
+end NextestModel.C08
